@@ -31,7 +31,7 @@ const (
 	sendMaps
 	sendTwiceReq      // request-level struct setter called twice: a filler value of the same type, then the value
 	sendTwiceClient   // client-level struct setter called twice (query, cookie), the request adds nothing
-	sendClientThenReq // filler at client level, the value at request level: observed only (see genSend)
+	sendClientThenReq // defaults under the same keys at client level, the value at request level: scalars judged (see genSend)
 )
 
 var sendName = [...]string{"struct-setter", "adders", "map-setters", "struct-setter-twice-on-request", "struct-setter-twice-on-client", "client-level-struct-then-request-level-struct"}
@@ -104,8 +104,8 @@ func genSend(r *gen.Rand, src source, t *typeSpec, val reflect.Value) *sendSpec 
 		return nil
 	}
 	s := &sendSpec{files: r.Range(1, 2), fileAPI: r.PickW(5, 3, 1), fileFirst: r.Chance(1, 3)}
-	s.mode = r.PickW(10, 8, 2, 4, 2, 1)
-	if src == sHeader && s.mode >= sendTwiceReq {
+	s.mode = r.PickW(10, 8, 2, 4, 2, 3)
+	if src == sHeader && s.mode >= sendTwiceReq && s.mode != sendClientThenReq {
 		s.mode = sendAdders // the client has no struct setter for headers
 	}
 	if (src == sForm || src == sMultipart) && s.mode > sendTwiceReq {
@@ -114,8 +114,10 @@ func genSend(r *gen.Rand, src source, t *typeSpec, val reflect.Value) *sendSpec 
 	if s.mode >= sendTwiceReq {
 		// "sets ... from a struct, overriding previously set values": whatever the first struct
 		// held, the server must bind the second one, empty slices and zero scalars included.
-		// (sendClientThenReq is different: client-level and request-level parameters are merged by
-		// the request hooks and nothing states which one wins for a multi-valued key; counted only.)
+		// (sendClientThenReq is different: the client carries defaults under the same keys and the
+		// request the value. Both are sent; for a multi-valued key nothing states what the server
+		// should make of that, so slices are only counted. A scalar field has one value: the one
+		// handed over at request level is the value sent - judged, non-slice fields only.)
 		s.filler = genFiller(r, src, t)
 	}
 	if s.mode == sendAdders {
@@ -233,6 +235,9 @@ func (r *rig) sendPieces(req *client.Request, p *probe, own func() *client.Clien
 			case p.src == sCookie:
 				cl2.SetCookiesWithStruct(fl)
 				req.SetCookiesWithStruct(real)
+			case p.src == sHeader:
+				eachHeaderOf(p.typ, s.filler, func(k, v string) { cl2.AddHeader(k, v) })
+				eachHeader(p, func(k, v string) { req.AddHeader(k, v) })
 			}
 		case sendAdders:
 			for _, c := range s.sched {
